@@ -78,6 +78,10 @@ CHECKS = {
    text="Fault enumeration over restart histories: every boot is a separate OS process that runs the real start-up path on a shared data directory (server.New with WithDataDir/WithToken, constructors of the enabled storage-backed services, agent key pair) and then boots Run in a bubble, where the identity is observed through the public surface (token on a heartbeat event, SSH host key seen by a real ssh client, certificates presented after FTP AUTH TLS / SMTP STARTTLS / LDAP StartTLS, agent public key). The first boot of every second history is killed (os.Exit, no deferred functions) at one of 19 named crash points - around the token file's creation and write and before/after every store write of every key and certificate - in rotation, so each quick batch enumerates all of them; other histories plant the token-file states a kill can leave (absent, empty, proper prefixes). Oracle: every completed boot reports a well-formed token and parsable keys/certificates, and once a completed boot has reported an item, every later one reports the same.",
    ref="§3 C18", tech="deterministic simulation with fault injection: crash-point enumeration across separate boot processes on one data directory (overlay-inserted named crash points, planted torn token-file states), identity observed by in-bubble ssh/TLS clients",
    note="Process kill only (no page-cache loss or torn badger writes); crash points are the instants around each durable write, a superset of what a kill at a random instant can expose at those files."),
+ "C16": dict(
+   text="Seeded exploration: a scripted agent speaks the real libdisco Noise_NK client over a simulated stream to the real agent listener (real libdisco server, real session loop, real codec) and multiplexes 1-4 virtual connections (hello, 0-20 data messages of 0-65000 bytes, eof; IPv4/IPv6 remote addresses) plus pings, UDP relay messages, data for unknown connections, interleaved message by message by the choice tape; every message is framed as three transport writes, one, or with its body split in two; a quarter of the runs drop the agent after n messages. Recording stub services in echo mode sit behind. Oracle per virtual connection: surfaced once with the announced addresses; the bytes the service read equal the concatenation of its data messages; the echoed bytes return to the agent tagged with its addresses, in order; eof/disconnect end exactly the affected connections; every message the listener sends decodes.",
+   ref="§3 C16", tech=TECH + "per-virtual-connection ordering/exactly-once oracle over both directions of the real encrypted tunnel; framing and agent-disconnect faults",
+   note="The codec round trip is exercised by the messages that actually cross the tunnel; interleaving granularity is one agent message per scheduler step."),
 }
 NA = {
  "C17": "pure functions of a byte buffer (decoder methods, ipp decode/encode): no schedule, clock, fault or interleaving to simulate (DESIGN §4)",
